@@ -346,6 +346,27 @@ def c_fft(ctx, case):
     rng = ctx.sub_rng("fft", n, sign, seed)
     x = np.array([complex(rng.uniform(-1, 1), rng.uniform(-1, 1)) for _ in range(n)],
                  dtype=np.complex128)
+    # ... after a transform of this length that FAILED part-way and was caught by the caller
+    # (the caller's own intermediate-wrapping callback raises at the outermost level; an
+    #  object array whose last element cannot be multiplied)
+    class _Stop(Exception):
+        pass
+
+    def _raising(level, v):
+        if level == 0:
+            raise _Stop()
+        return v
+    bad = np.empty(n, dtype=object)
+    bad[:] = [1] * n
+    bad[-1] = "not a number"
+    for attempt in (lambda: fft(x.copy(), sign=sign, complex_dtype=np.complex128, wrap_intermediate_with_level=_raising),
+                    lambda: fft(bad, sign=sign, complex_dtype=np.complex128)):
+        try:
+            attempt()
+        except RecursionError:
+            raise
+        except Exception:  # noqa: BLE001
+            ctx.count("failed_transforms_before_the_judged_one")
     ctx.case(None)
     ctx.count("fft_calls")
     want = dft(list(x), sign)
@@ -981,6 +1002,7 @@ def workload(ctx):
     ctx.floor("poly_kind_rewrites", 150)
     ctx.floor("poly_divmod_spellings", 1000)
     ctx.floor("poly_same_object_ops", 500)
+    ctx.floor("failed_transforms_before_the_judged_one", 100)
     ctx.floor("euclid_long_remainder_sequences", 40)
     ctx.floor("poly_mapped_with_arguments", 1000)
     ctx.floor("real_input_transforms", 200)
